@@ -215,6 +215,44 @@ def eval_si(tree, vals, dv):
         lambda y, t: dv(y, t) * USCALE[var_unit(y)] / USCALE[var_unit(t)])
 
 
+def try_eval(fn, tree, vals, dv):
+    try:
+        return fn(tree, vals, dv)
+    except (bridge.Undefined, OverflowError, ZeroDivisionError, ValueError):
+        return None
+
+
+def stable_point(tree, vals, dv):
+    """the numeric reading does not jump under a 1e-9 relative perturbation of the variables (away from
+    discontinuities of floor / relations, from tan of huge arguments, from catastrophic cancellation)"""
+    a = try_eval(eval_n, tree, vals, dv)
+    for sub in subtrees(tree):
+        v = try_eval(eval_n, sub, vals, dv)
+        if v is not None and not isinstance(v, bool) and abs(v) > 1e9:
+            return False          # huge intermediate values: Mod / tan / differences lose all precision
+    for eps in (1e-9, -1e-9):
+        def pert(t, vs, d, eps=eps):
+            return bridge.eval_tree(t, lambda v: vs[v] * (1 + eps), lambda i, q, u: qvalue(i, q) * (1 + eps), d)
+        b = try_eval(pert, tree, vals, dv)
+        if (a is None) != (b is None):
+            return False
+        if a is None:
+            continue
+        if isinstance(a, bool) or isinstance(b, bool):
+            if a != b:
+                return False
+        elif not math.isclose(a, b, rel_tol=1e-7, abs_tol=1e-9):
+            return False
+    return True
+
+
+def same_value(a, b):
+    """two readings of the same number (values are O(1) products of leaves in [0.6, 2.9])"""
+    if isinstance(a, bool) or isinstance(b, bool):
+        return a == b
+    return math.isclose(a, b, rel_tol=1e-7, abs_tol=1e-9)
+
+
 def close(a, b, tol=1e-9):
     if isinstance(a, bool) or isinstance(b, bool):
         return a == b
@@ -558,7 +596,7 @@ class Gen(object):
 def exp_value(x):
     """true value of a closed exponent tree (None if not closed over numbers / quantities)"""
     try:
-        v = bridge.eval_tree(x, lambda v: (_ for _ in ()).throw(KeyError()))
+        v = bridge.eval_tree(x, lambda v: (_ for _ in ()).throw(KeyError()), lambda i, q, u: float(q) * USCALE[u])
     except Exception:
         return None
     f = F(v).limit_denominator(64)
